@@ -17,6 +17,7 @@ CONSTANTS Cap, Reserved, Unify, Kind, Backend, MinSeg0, FixedRewind,
           AlignedSet,     \* set of <<T, n>> for alloc_aligned_bytes::<T>(n)
           OwnedToo,       \* also the *_owned variants
           MinSegSet, IncSet, RewindSet, TruncSet, WithClear, WithLeak,
+          WithReopen,     \* close + map_mut reopen of a file-backed arena as a call of the menu
           Prefix,         \* scripted history applied before the free exploration starts (part of every driver)
           Emit
 
@@ -59,6 +60,8 @@ Menu(s) ==
                    \cup {[k |-> "rewind", p |-> "end", v |-> s.cap - s.doff], [k |-> "start", p |-> "start", v |-> s.doff]}
                : op.k = "rewind" /\ RewindOk(s, op)})
   \cup (IF WithClear /\ s.cursor # s.doff THEN {[k |-> "clear"]} ELSE {})
+  \cup (IF WithReopen /\ Backend = "file" /\ Len(hist) > 0 /\ hist[Len(hist)].k # "reopen"
+        THEN {[k |-> "reopen", variant |-> "map_mut", cap |-> 0, flush |-> FALSE, create |-> FALSE]} ELSE {})
   \cup {[k |-> "truncate", v |-> v] : v \in {v \in TruncSet : Max(v, s.cursor) # s.cap}}
 
 PreOf(s) == [doff |-> s.doff, obs |-> Obs(s), live |-> s.live, leaked |-> s.leaked, first |-> s.first,
